@@ -273,7 +273,56 @@ def qmat_validation(tier, seed):
                              bound=f'6 node families x 4 quadrature types x M in {list(Ms)[0]}..{list(Ms)[-1]} x {len(intervals)} intervals; allowance 1e-9 relative (1e-6 for M>10)', cases=cases, failures=len(fails)))
 
 
+def sweeper_reinitialised_in_place(tier, seed):
+    """history clause: a sweeper object is initialised a SECOND time in place (what AdaptiveCollocation.switch_sweeper does with
+    L.sweep.__init__(params, L)); afterwards its collocation object is the one of the NEW parameters -- node family, quadrature type,
+    node count, nodes, weights, Q, S, order and end-point flags bit-identical to a freshly built CollBase(**new params) -- whatever it held before.
+    Exhaustive over ordered pairs of parameter sets from the grid (all pairs in thorough, pairs differing in one entry in quick)."""
+    import importlib
+    import itertools
+    import numpy as np
+    from pySDC.core.level import Level
+
+    mod = importlib.reload(importlib.import_module('pySDC.core.collocation'))
+    CollBase = mod.CollBase
+    GI = cls_of('pySDC/implementations/sweeper_classes/generic_implicit.py', 'generic_implicit')
+    from vc.native import ConcreteLinearProblem
+
+    node_types = ['LEGENDRE', 'EQUID', 'CHEBY-1', 'CHEBY-2', 'CHEBY-3', 'CHEBY-4']
+    quad_types = ['GAUSS', 'LOBATTO', 'RADAU-LEFT', 'RADAU-RIGHT']
+    grid = [dict(node_type=nt, quad_type=qt, num_nodes=M) for nt in node_types for qt in quad_types for M in (2, 3, 4)]
+    fails = dict(collocation_object_belongs_to_the_new_parameters=[], reported_parameters_are_the_new_ones=[], reinitialisation_runs=[])
+    cases = 0
+    for a, b in itertools.permutations(grid, 2):
+        ndiff = sum(a[k] != b[k] for k in a)
+        if tier == 'quick' and ndiff != 1:
+            continue
+        cases += 1
+        tag = f"{a['node_type']}/{a['quad_type']}/{a['num_nodes']} -> {b['node_type']}/{b['quad_type']}/{b['num_nodes']}"
+        try:
+            L = Level(problem_class=ConcreteLinearProblem, problem_params=dict(kind='full'), sweeper_class=GI, sweeper_params=dict(a, QI='IE'), level_params=dict(dt=0.1), level_index=0)
+            sw = L.sweep
+            sw.__init__(dict(b, QI='IE'), L)
+        except Exception as e:
+            fails['reinitialisation_runs'].append(dict(case=tag, error=repr(e)[:160]))
+            continue
+        ref = CollBase(**b)
+        c = sw.coll
+        same = (c.num_nodes == ref.num_nodes and c.node_type == ref.node_type and c.quad_type == ref.quad_type and np.array_equal(c.nodes, ref.nodes)
+                and np.array_equal(c.weights, ref.weights) and np.array_equal(c.Qmat, ref.Qmat) and np.array_equal(c.Smat, ref.Smat) and c.order == ref.order
+                and c.left_is_node == ref.left_is_node and c.right_is_node == ref.right_is_node)
+        if not same:
+            fails['collocation_object_belongs_to_the_new_parameters'].append(dict(case=tag, nodes=[float(x) for x in c.nodes], expected=[float(x) for x in ref.nodes]))
+        if not (sw.params.num_nodes == b['num_nodes'] and sw.params.quad_type == b['quad_type'] and sw.params.get('node_type', b['node_type']) == b['node_type']):
+            fails['reported_parameters_are_the_new_ones'].append(dict(case=tag))
+    obs = [dict(name=f'history:{k}', status='proved' if not bad else 'refuted', backend='enumeration', seconds=0.0, kind='bounded', size=0, model=dict(count=len(bad), first=bad[:4]) if bad else None,
+                reason='', path=0) for k, bad in fails.items()]
+    return dict(contract='Sweeper.__init__ [re-initialised in place]', prop='C05', inst={}, label='exhaustive over the enumerated grid', kind='exact', obligations=obs, canaries=[], paths=1, status='ok',
+                bounded=dict(what='second __init__ on an existing sweeper object: collocation object compared bit by bit with a fresh CollBase of the new parameters',
+                             bound=f'ordered pairs over 6 node families x 4 quadrature types x M in (2,3,4) ({"pairs differing in one entry" if tier == "quick" else "all pairs"})', cases=cases, failures=sum(len(v) for v in fails.values())))
+
+
 CONTRACTS = [CollInit, Evaluate, CollUpdateSwitch]
-EXTRAS = [qmat_validation]
+EXTRAS = [qmat_validation, sweeper_reinitialised_in_place]
 ASSUMPTIONS = ['qmat (external): nodes, weights, Q, S, order are correct -- validated only boundedly']
 UNDECIDED = ['"extended precision" of the property is replaced by exact rational evaluation of the returned doubles with a stated allowance']
